@@ -288,7 +288,19 @@ pub fn strategy(ctx: &Ctx, maxlen: usize) -> BoxedStrategy<Case> {
                     Node::Op(Op::FillRect(x.floor(), y.floor(), bw.ceil(), bh.ceil(), s, o))
                 }
             });
-            let item = prop_oneof![5 => regular, 4 => noise_node(&ctx2, w, h), 2 => headless, 3 => band, 1 => xf];
+            // surface-to-surface transfers write the pixel buffer without going through the compositor, and a clear
+            // to transparent black is the one clear whose effect could be "already true": both belong in histories
+            let surf = (1i32..=6, 1i32..=6).prop_flat_map(|(sw, sh)| pixels((sw * sh) as usize, 0).prop_map(move |data| SurfSpec { w: sw, h: sh, data }));
+            let surfop = (surf, (-2i32..=4, -2i32..=4, 1i32..=7, 1i32..=7), (-3..=w, -3..=h), 0u8..3, blend_biased(), alpha_f()).prop_map(|(sf, (x1, y1, dw, dh), (ax, ay), kind, mode, alpha)| {
+                let r = [x1, y1, x1 + dw, y1 + dh];
+                Node::Op(match kind {
+                    0 => Op::CopySurface(sf, r, [ax, ay]),
+                    1 => Op::BlendSurface(sf, r, [ax, ay], mode),
+                    _ => Op::BlendSurfaceAlpha(sf, r, [ax, ay], Fl(alpha)),
+                })
+            });
+            let clear0 = Just(Node::Op(Op::Clear(0)));
+            let item = prop_oneof![10 => regular, 8 => noise_node(&ctx2, w, h), 4 => headless, 6 => band, 2 => xf, 3 => surfop, 1 => clear0];
             (Just((w, h)), prop_oneof![2 => init_pixels(w, h), 1 => Just(vec![])], prop::collection::vec(item, 4..=maxlen))
         })
         .prop_map(|((w, h), init, nodes)| Case { w, h, init, nodes })
@@ -300,7 +312,7 @@ pub fn property(ctx: &Ctx) -> Property {
     let c2 = ctx.clone();
     Property {
         id: "C10",
-        rule: "cases: histories of 4-40 (long part: up to 200) top-level calls on one DrawTarget (1..48 px, widely varying vertical extents): fills, fill_rects, strokes, masks, clear, image draws, clip groups, layer groups, transform changes (incl. singular), paths whose first op is line_to/quad_to/cubic_to, and no-op 'noise' calls (empty paths; paths wholly above/below/left/right of the surface; zero-area and horizontal-only paths; draws under a singular transform; zero/negative/NaN-width strokes; push_clip of off-surface, empty or arbitrary paths immediately popped; rectangles ending exactly at row 0). Oracle: (i) every top-level call is also applied to a fresh DrawTarget holding the same pixels with the transform re-set: pixels must be identical; (ii) the history with all noise calls deleted (noise classified in device space) must show identical pixels at every checkpoint; (iii) the cfg(raqote_verif) hook verif_rasterizer_idle() must hold after every public call in both runs. Non-trivial: >=1 noise call followed by a visible draw, and >=2 visible draws with disjoint vertical extents; distinct by hash of the case.",
+        rule: "cases: histories of 4-40 (long part: up to 200) top-level calls on one DrawTarget (1..48 px, widely varying vertical extents): fills, fill_rects, strokes, masks, clear (also to transparent black), image draws, copy_surface / blend_surface / blend_surface_with_alpha, clip groups, layer groups, transform changes (incl. singular), paths whose first op is line_to/quad_to/cubic_to, and no-op 'noise' calls (empty paths; paths wholly above/below/left/right of the surface; zero-area and horizontal-only paths; draws under a singular transform; zero/negative/NaN-width strokes; push_clip of off-surface, empty or arbitrary paths immediately popped; rectangles ending exactly at row 0). Oracle: (i) every top-level call is also applied to a fresh DrawTarget holding the same pixels with the transform re-set: pixels must be identical; (ii) the history with all noise calls deleted (noise classified in device space) must show identical pixels at every checkpoint; (iii) the cfg(raqote_verif) hook verif_rasterizer_idle() must hold after every public call in both runs. Non-trivial: >=1 noise call followed by a visible draw, and >=2 visible draws with disjoint vertical extents; distinct by hash of the case.",
         assumptions: vec!["checkpoints are top-level calls (a clip group or a layer group counts as one call); inside groups the idle hook is still checked after every call", "'indefinitely' is sampled by histories of bounded length"],
         parts: vec![part("history", 40_000, 600_000, move || strategy(&c, 40), check), part("long", 600, 20_000, move || strategy(&c2, 200), check)],
         min_class_fraction: vec![("history", "noise-call", 0.8), ("history", "visible-draw-after-noise", 0.5), ("history", "disjoint-vertical-extents", 0.25), ("history", "path-without-leading-moveto", 0.3), ("history", "path-starting-with-close", 0.1), ("history", "layer-group", 0.1)],
